@@ -316,7 +316,14 @@ func vfRunScenario(t *testing.T, rec *vfRec, sc map[string]any) {
 				}
 				m = ra
 			}
-			push(ifi, vfMsg{kind: kind, m: m, hl: vfInt(st, "hl", 255), from: from, tag: vfStr(st, "tag", "")})
+			tag := vfStr(st, "tag", "")
+			if kind == "ra" {
+				tag = "same"
+				if vfStr(st, "variant", "same") == "diffhl" {
+					tag = "diff"
+				}
+			}
+			push(ifi, vfMsg{kind: kind, m: m, hl: vfInt(st, "hl", 255), from: from, tag: tag})
 		case "timeout":
 			push(ifi, vfMsg{kind: "timeout", err: vfTimeout{}})
 		case "readerr":
